@@ -18,6 +18,11 @@ TP == <<
   WhenP(1, And_(H_(Pv, "mgr"), Or_(B_("less", B_("add", G_(G_(Pv, "mgr"), "n"), LitL(1)), LitL(5)), G_(Cv, "flag")))),
   WhenP(1, Or_(B_("eq", G_(Pv, "n"), B_("mul", G_(G_(Rv, "owner"), "n"), LitL(2))), G_(Cv, "flag"))),
   WhenP(1, And_(B_("eq", LitL(0), B_("sub", LitL(0), B_("add", G_(G_(Rv, "owner"), "n"), LitL(1)))), Not_(G_(Cv, "flag")))),
+  \* membership in a SET of entities, incl. the reflexive case with no declared hierarchy between the types
+  WhenP(2, B_("in", Pv, <<"set", <<<<"lit", TU1>>, <<"lit", TU2>>>>>>)),
+  WhenP(2, B_("in", Pv, <<"set", <<G_(Rv, "owner"), <<"lit", TU2>>>>>>)),
+  WhenP(2, B_("in", G_(Rv, "owner"), <<"set", <<Pv>>>>)),
+  WhenP(2, B_("in", Pv, <<"set", <<<<"lit", TG>>, <<"lit", TG2>>>>>>)),
   WhenP(2, And_(Probes[16][1], Conn(1, Guard(2), TT_, Use(2)))), WhenP(2, Or_(B_("eq", G_(Rv, "owner"), Pv), Conn(1, Guard(4), TT_, Use(4))))
 >>
 NTP == Len(TP)
